@@ -487,4 +487,8 @@ def gen_cases(tier, rng):
     cases += ADV.big_nets(rng, count=40 if tier == "quick" else 400)
     cases += ADV.histories(rng, nrand=50 if tier == "quick" else 500)
     cases.append(dict(kind="degenerate", rxns=[], iso=[], view="hyper"))
+    import os
+    lim = os.environ.get("VERIF_C19_SAMPLE")          # development aid: a seeded subsample of the tier's population
+    if lim and len(cases) > int(lim):
+        cases = rng.sample(cases, int(lim))
     return cases
